@@ -264,13 +264,16 @@ RetOk(abi, o) == o.ret = "void" \/ ~RetAsserted(abi, o.ret) \/ PackOk(o.r, Expec
 PlacementOk(o) ==
   LET abi == AbiOf(o.env, o.conv) IN
   \/ o.err # "Ok"                                        \* refusing a signature is not a wrong placement
-  \/ /\ ConsistFails(o) = "ok"
+  \/ /\ abi # "none" => ConsistFails(o) = "ok"        \* asmjit-only / unasserted conventions: informational only (Info)
      /\ abi # "none" => ConstFails(abi, o) = "ok"
      /\ abi # "none" => RetOk(abi, o)
      /\ SigAsserted(abi, o.args, o.va) =>
           LET sts == States(abi, o.args, o.va) IN
           /\ FirstBadArg(abi, o, sts) = 0
           /\ StackSizeOk(abi, o, sts)
+
+(* internal consistency of a convention no platform ABI governs (light-call, ...): reported, never judged *)
+Info(o) == IF AbiOf(o.env, o.conv) = "none" /\ o.err = "Ok" /\ o.abort = "" THEN ConsistFails(o) ELSE "ok"
 
 (* the sanitizer build must not abort on the input, and the placement must be the ABI's *)
 Conforms(o) == o.abort = "" /\ PlacementOk(o)
